@@ -88,19 +88,70 @@ def directed_moved_endpoint(r):
     return dict(cfg=tuple(cfg), insts=insts, draws=[d0] * 64, events=events, end=t2 + 5 * T, rev=r.random() < 0.3, fuel=20000)
 
 
+def own_timings_direct(ctx, n):
+    """A ServiceInstance whose OWN Timings object differs from the announcer's in whether offers are cyclic (and in the
+    announce TTL): its lifecycle follows ITS timings - offers with its TTL, exactly one StopOffer after a stop that followed an
+    offer, nothing at all when it is stopped during its initial wait.  Judged directly on the real stack (the model has one
+    configuration), on the virtual-time loop."""
+    from .. import conv, sim
+    T, MS = scen.T, scen.MS
+    r = random.Random(ctx.seed * 7919 + 310)
+    for k in range(n):
+        base = [10 * MS, 10 * MS, 0, 0, r.choice([0, 1, 2]), T // 8, 0, 1, 3, 5, None, r.choice([0, 5 * MS])]
+        prot_cfg, inst_cfg = list(base), list(base)
+        cyc_inst = r.random() < 0.5
+        inst_cfg[6], prot_cfg[6] = (T // 2, 0) if cyc_inst else (0, T // 2)
+        inst_cfg[8] = r.choice([3, 7])
+        reps_end = 10 * MS + sum((1 << i) * (T // 8) for i in range(base[4]))
+        when = r.choice(["initial-wait", "after-repetitions", "later"])
+        t_stop = {"initial-wait": 5 * MS, "after-repetitions": reps_end + T // 16, "later": reps_end + 2 * T}[when]
+        how = r.choice([[16], [18, 1, True], [1]])
+        sc = dict(cfg=tuple(prot_cfg), insts=[(1, conv.s_service(scen.SERVICES[0]), [])], inst_cfg={1: tuple(inst_cfg)}, draws=[10 * MS] * 16,
+                  events=[(0, (1, [17, 1])), (0, (1, [0])), (t_stop, (1, how))], end=t_stop + 2 * T, rev=False, fuel=20000)
+        tr, completed, _ = sim.run_impl(sc)
+        offers, stops = [], []
+        for t, ev in tr:
+            if ev[0] != 0:
+                continue
+            msg, _ = H.SOMEIPHeader.parse(bytes(ev[2]))
+            sd = H.SOMEIPSDHeader.parse(msg.payload)[0].resolve_options()
+            for e in sd.entries:
+                if e.sd_type == H.SOMEIPSDEntryType.OfferService:
+                    (stops if e.ttl == 0 else offers).append((t, ev[1], e.ttl))
+        # a NON-cyclic instance sends its StopOffer from stop() itself, also during the initial wait (not judged: the property
+        # speaks of cyclic instances there)
+        want_stops = (0 if cyc_inst else None) if when == "initial-wait" else 1
+        bad = []
+        if want_stops is not None and len(stops) != want_stops:
+            bad.append("%d StopOffer entries, expected %d" % (len(stops), want_stops))
+        if when == "initial-wait" and offers:
+            bad.append("offers although stopped during the initial wait")
+        if when != "initial-wait" and not offers:
+            bad.append("no offer before the stop")
+        if any(ttl != inst_cfg[8] for _, _, ttl in offers):
+            bad.append("an offer does not carry the instance's announce TTL")
+        if stops and offers and min(s[0] for s in stops) < max(o[0] for o in offers):
+            bad.append("an offer after the StopOffer")
+        if bad:
+            ctx.violation("an instance with timings of its own: " + "; ".join(bad),
+                          dict(protocol_cfg=prot_cfg, instance_cfg=inst_cfg, stop_at=t_stop, stop_by=how, offers=len(offers), stop_offers=len(stops)))
+        ctx.case(("own-timings", k, cyc_inst, when, tuple(how)), kind="instance-own-timings-" + when)
+
+
 def run(ctx):
     r = ctx.rng
     quick = ctx.tier == "quick"
     ctx.rule = ("timing grid (initial-delay window, repetitions 0-4, base delay, cyclic period or none, TTL finite/infinite, collection timeout 0/1 tick/5 ms) x "
                 "1-3 instances x announcer stop/start, stop_announce/announce, protocol stop/start, connection loss at phase boundaries +-1 tick and anywhere x "
                 "FindService (unicast/multicast) and Subscribe traffic; complete traces compared with the model; implementation trace judged by check_C10; plus "
-                "a service withdrawn and announced again with the same ids and other options; SimpleService.start_announce/stop_announce against a real announcer; non-trivial = distinct scenario with at least one transmission")
+                "a service withdrawn and announced again with the same ids and other options; an instance whose own Timings differ from the announcer's (cyclic or not, announce TTL), judged directly; SimpleService.start_announce/stop_announce against a real announcer; non-trivial = distinct scenario with at least one transmission")
     ctx.assumptions = ["an instance is announced at most once at a time", "schedule clauses are judged when the oracle draws are all equal (otherwise only the model comparison applies)"]
     n = 300 if quick else 10000
     scs = stackprop.corpus_scenarios("C10") + [scen.server_scenario(r) if k % 2 else scen.lifecycle_scenario(r) for k in range(n)]
     r2 = random.Random(ctx.seed * 7919 + 10)      # a stream of its own: the scenarios above stay what they were
     scs += [directed_moved_endpoint(r2) for _ in range(30 if quick else 1000)]
     stackprop.run_scenarios(ctx, scs, 3010, CODES, known_codes={15: "F15"}, what="offer lifecycle")
+    own_timings_direct(ctx, 30 if quick else 600)
     exc = simple_service_stop_announce()
     ctx.case("simple-service-stop-announce", kind="simple-service-helper")
     if exc is not None:
